@@ -160,6 +160,7 @@ func cornerEvents(prop string) []string {
 			a = append(a, gw.EvB(fmt.Sprintf("broker PUBLISH(%d-byte new topic)", n+2), refmqtt.EncPublish("w/"+strings.Repeat("t", n), 0, false, false, 0, []byte("x"))))
 		}
 		a = append(a,
+			gw.EvB("broker PUBLISH(new topic with multi-octet characters)", refmqtt.EncPublish("w/kuchy\u0148/\u00b0C", 0, false, false, 0, []byte("x"))),
 			gw.EvB("broker PUBLISH(8170-byte new topic)", refmqtt.EncPublish("w/"+strings.Repeat("t", 8170), 0, false, false, 0, []byte("x"))),
 			gw.EvC("REGISTER(7168-byte name)", gw.Register(0, 5, strings.Repeat("n", 7168))),
 			gw.EvC("CONNECT(c1,0)", gw.Connect("c1", 0, false, true)),
@@ -201,6 +202,8 @@ func cornerEvents(prop string) []string {
 		gw.EvC("WILLTOPIC(w,q3)", gw.WillTopic("w", 3, false)),
 		gw.EvC("WILLTOPIC(w/#)", gw.WillTopic("w/#", 1, false)),
 		gw.EvC("WILLTOPIC(w,q1)", gw.WillTopic("w", 1, true)),
+		gw.EvC("WILLTOPIC(one NUL octet)", gw.WillTopic("\x00", 1, false)),
+		gw.EvC("WILLTOPIC(w + NUL)", gw.WillTopic("w\x00", 1, false)),
 		gw.EvC("WILLMSG(m)", gw.WillMsg("m")),
 		gw.EvC("PUBREL(mid 0)", gw.Pubrel(0)),
 		gw.EvC("PUBLISH(q0,predef 5 = s/+/t)", gw.Publish(1, 5, 0, 0, false, false, "x")),
@@ -261,7 +264,7 @@ func runWellFormed(t *testing.T, prop, test string) {
 	rep := explore.NewReport(prop, "model_checking")
 	gw.BFSCheck(rep, specs, gw.BFSOpts{Test: test}, 240, 1500)
 	if prop == "C23" {
-		rep.Coverage["rule"] = "BFS (depth 3, thorough 4) over connect / subscribe / sleep / wake events plus the corner inputs the property names (broker payloads of 0..70000 bytes on short, predefined and new topics, payloads and new topic names that put the datagram size at 254..258 bytes, an 8170-byte new topic name, a 7168-byte REGISTER, CONNECT with keep-alive 0 and with a wrong protocol id, CONNECT while asleep/awake, DISCONNECT / PINGREQ requests in the 3-octet length form, two broker messages at once for a sleeping client); every datagram the gateway sends is decoded by the reference decoder: decodable, type valid gateway->client, length field = size, canonical length form, size <= 8192. (The client-library direction is checked by the client harness part.)"
+		rep.Coverage["rule"] = "BFS (depth 3, thorough 4) over connect / subscribe / sleep / wake events plus the corner inputs the property names (broker payloads of 0..70000 bytes on short, predefined and new topics, payloads and new topic names that put the datagram size at 254..258 bytes, a new topic name with multi-octet characters, an 8170-byte new topic name, a 7168-byte REGISTER, CONNECT with keep-alive 0 and with a wrong protocol id, CONNECT while asleep/awake, DISCONNECT / PINGREQ requests in the 3-octet length form, two broker messages at once for a sleeping client); every datagram the gateway sends is decoded by the reference decoder: decodable, type valid gateway->client, length field = size, canonical length form, size <= 8192. (The client-library direction is checked by the client harness part.)"
 	} else {
 		rep.Coverage["rule"] = "BFS (depth 3, thorough 4) over connect / subscribe / sleep / wake events plus malformed-but-decodable client input (reserved topic id type, QoS 1/2 with msg id 0, short topics containing wildcards, SUBSCRIBE QoS 3 / msg id 0 / malformed filters, REGISTER of wildcard names and publishing to them, publishes and a subscription on predefined ids whose configured names are filters or empty, will QoS 3, wildcard will topic, empty WILLTOPIC with the Will flag, empty client id without clean session, PUBREL msg id 0); every packet written to the broker is parsed and validated by an independent MQTT 3.1.1 validator"
 	}
